@@ -167,7 +167,9 @@ impl Mon {
                             }
                             let notional = mul_div_floor(*margin, *lev, d);
                             let delta = if s.effect == Effect::Increased {
-                                S::pos(mul_div_floor(notional, d, *lev))
+                                // the margin added is what actually reached the vault in this transaction
+                                let _ = (notional, lev);
+                                S::pos(s.post.bal[w.idx_engine()]).sub(&S::pos(s.pre.bal[w.idx_engine()]))
                             } else {
                                 let closed = pr.size - p1.size.value.u128();
                                 pr.pnl_spot()?.mul(&S::pos(closed)).div_trunc(&S::pos(pr.size))
